@@ -61,6 +61,8 @@ VALS = (0.0, 1.0, -1.0, 0.5, -0.5, 2.0, -2.0, 0.25)
 
 def regenerate(ctx: Ctx) -> None:
     ctx.gen_status.update(hef_tr.regenerate())
+    from translate import transcripts as _tr
+    ctx.gen_status.update(_tr.constructor_wiring(['HybridEigenvectorFollowing']))
 
 
 # ----------------------------------------------------------------------------- correspondence
